@@ -9,6 +9,28 @@ ROOT = os.path.dirname(os.path.dirname(os.path.abspath(__file__)))
 
 # id -> (level, technique, text, note, design_ref)
 CHECKS = {
+    "C16": (
+        "exploration",
+        "deterministic simulation, model-based: seeded call sequences on message handles of every category and retry state with one injected broker-call failure; reference handle state machine; recorder counts broker calls",
+        "Queue mode: a message in the normal/delayed/dead category with already_tried <,=,> max is obtained through "
+        "Queue.get_messages and driven by 2-8 seeded calls (ack/nack/reject/reschedule/retry/force_retry), one broker call may be "
+        "made to raise; per call ValueError iff the model refuses, refused/post-use calls make no broker call, exactly one "
+        "terminal action succeeds, budget refusal and failed broker calls leave the handle usable. Actor mode: scripted "
+        "set_result/set_exception/add_callback/eager calls on MessageDependency; callbacks in registration order with the store "
+        "at the position of the latest set_*, body does not continue, exactly one terminal action. In-memory and Redis brokers.",
+        "Samples sequences (seeded generator instead of Hypothesis: same shrinkable list representation as the other checks). RabbitMQ not exercised (the handle logic is broker-independent).",
+        "DESIGN.md section 8 C16",
+    ),
+    "C17": (
+        "exploration",
+        "deterministic simulation, differential: one or two connections with seeded subscriber sets (slow/raising/sync/async, signature subsets); recording shim around the wrapper with its own nesting context; twin run without subscribers",
+        "Full job lifecycles on one or two in-memory connections running concurrently, with seeded subscribers plus a logging "
+        "subscriber per signal. Every top-level wrapped call: one before_X, one after_X iff it returned, arguments by name and "
+        "result, delivered only to the owning connection; nested calls silent (attribution by an own context variable, not "
+        "IsInsideMiddleware); results and final broker state equal to the twin run without subscribers.",
+        "Samples configurations; in-memory brokers only (the wrapper is broker-independent). One known finding (retried job's result overwritten when requeue's return is delayed) is matched by mechanism.",
+        "DESIGN.md section 8 C17",
+    ),
     "C09": (
         "exploration",
         "deterministic simulation: arrival patterns anchored to the loop step at which a slot frees; in-progress monitor at every actor entry; liveness bound in virtual time plus kernel deadlock verdict",
